@@ -1,6 +1,320 @@
 package main
 
-// placeholder until E2 exists
-func checkLRDriver(c *Ctx, p *Prog, rule, pkg, fn string, frontend bool) {
-	c.Note("%s: driver transfer table not built yet", rule)
+// The LR driver loop as a transfer table (R02.4 for generated parsers, R15.2
+// for gocc's own front-end parser).
+
+import (
+	"fmt"
+	"go/types"
+	"strings"
+
+	"golang.org/x/tools/go/ssa"
+)
+
+type driverWorld struct {
+	name      string
+	first     string // action found in the row: "nil", "accept", "shift", "reduce"
+	recovered bool   // after nil: did Error recover
+	second    string // action found after recovery
+	errNil    bool   // reduce: action returned a nil error
+}
+
+func driverWorlds() []driverWorld {
+	var ws []driverWorld
+	for _, a := range []string{"accept", "shift"} {
+		ws = append(ws, driverWorld{name: a, first: a})
+	}
+	for _, e := range []bool{true, false} {
+		ws = append(ws, driverWorld{name: fmt.Sprintf("reduce, action error nil=%v", e), first: "reduce", errNil: e})
+	}
+	ws = append(ws, driverWorld{name: "no action, not recovered", first: "nil"})
+	for _, a := range []string{"nil", "accept", "shift"} {
+		ws = append(ws, driverWorld{name: "no action, recovered, then " + a, first: "nil", recovered: true, second: a})
+	}
+	for _, e := range []bool{true, false} {
+		ws = append(ws, driverWorld{name: fmt.Sprintf("no action, recovered, then reduce, action error nil=%v", e), first: "nil", recovered: true, second: "reduce", errNil: e})
+	}
+	return ws
+}
+
+func pkgType(p *Prog, rel, name string) types.Type {
+	pk := p.Pkg(rel)
+	if pk == nil {
+		return nil
+	}
+	o := pk.Types.Scope().Lookup(name)
+	if o == nil {
+		return nil
+	}
+	return o.Type()
+}
+
+// checkLRDriver interprets one iteration of Parse's loop in every world.
+func checkLRDriver(c *Ctx, p *Prog, rule, pkg, fnName string, frontend bool) {
+	fn := p.Func(pkg, fnName)
+	if fn == nil {
+		c.Undecided(rule, pkg+" Parse", "function not found")
+		return
+	}
+	hs := loopHeaders(fn)
+	if len(hs) != 1 {
+		c.Undecided(rule, pkg+" Parse", fmt.Sprintf("expected exactly one loop in Parse, found %d", len(hs)))
+		return
+	}
+	head := hs[0]
+	pos := p.FnPos(fn)
+	short := strings.TrimPrefix(pkg, gmRoot+"/")
+	recvName := fn.Params[0].Name()
+	kindName := func(k string) string {
+		if frontend {
+			return strings.ToUpper(k[:1]) + k[1:]
+		}
+		return k
+	}
+	mkAction := func(kind, sym string) Val {
+		if kind == "nil" {
+			return VIface{}
+		}
+		T := pkgType(p, pkg, kindName(kind))
+		if T == nil {
+			return VOpq{"?"}
+		}
+		if kind == "accept" {
+			return VIface{Dyn: T, V: VOpq{"acc"}}
+		}
+		return VIface{Dyn: T, V: VSym{Name: sym}}
+	}
+	n := 0
+	for _, w := range driverWorlds() {
+		w := w
+		var cur *Run
+		ev := func(f string, a ...any) { cur.Event(f, a...) }
+		tops, scans, lookups := 0, 0, 0
+		rowAction := func() Val {
+			lookups++
+			if lookups == 1 {
+				return mkAction(w.first, "a1")
+			}
+			return mkAction(w.second, "a2")
+		}
+		topS := func(r *Run, cc *ssa.CallCommon, args []Val) (Val, error) {
+			cur = r
+			// pure observer of the stack: its value changes only when the stack does
+			return VSym{Name: fmt.Sprintf("TOP@%d", tops)}, nil
+		}
+		pushS := func(r *Run, cc *ssa.CallCommon, args []Val) (Val, error) {
+			cur = r
+			ev("push(%s,%s)", render(args[1]), render(args[2]))
+			tops++
+			return VTuple{}, nil
+		}
+		popS := func(r *Run, cc *ssa.CallCommon, args []Val) (Val, error) {
+			cur = r
+			ev("popN(%s)", render(args[1]))
+			tops++
+			return VOpq{"popped"}, nil
+		}
+		scanS := func(r *Run, cc *ssa.CallCommon, args []Val) (Val, error) {
+			cur = r
+			scans++
+			ev("Scan")
+			o := r.NewObj(fmt.Sprintf("tok%d", scans), false)
+			if frontend {
+				return VTuple{VPtr{o, ""}, VOpq{fmt.Sprintf("pos%d", scans)}}, nil
+			}
+			return VPtr{o, ""}, nil
+		}
+		errorS := func(r *Run, cc *ssa.CallCommon, args []Val) (Val, error) {
+			cur = r
+			ev("Error(%s)", render(args[1]))
+			tops++
+			// Error may have scanned on: the look-ahead is whatever it left
+			o := r.NewObj("tokAfterError", false)
+			r.SetCell(recvName, ".nextToken", VPtr{o, ""})
+			ea := r.NewObj("errAttrib", false)
+			return VTuple{boolConst(w.recovered), VPtr{ea, ""}}, nil
+		}
+		newErrS := func(r *Run, cc *ssa.CallCommon, args []Val) (Val, error) {
+			cur = r
+			ev("newError(%s)", render(args[1]))
+			return VIface{Dyn: types.Universe.Lookup("error").Type(), V: VOpq{"theError"}}, nil
+		}
+		reduceS := func(r *Run, cc *ssa.CallCommon, args []Val) (Val, error) {
+			cur = r
+			parts := []string{}
+			for _, a := range args[1:] {
+				parts = append(parts, render(a))
+			}
+			ev("ReduceFunc[%s](%s)", render(args[0]), strings.Join(parts, ","))
+			var e Val = VIface{}
+			if !w.errNil {
+				e = VIface{Dyn: types.Universe.Lookup("error").Type(), V: VOpq{"actionErr"}}
+			}
+			return VTuple{VOpq{"attrib"}, e}, nil
+		}
+		reg := &Region{
+			Fn: fn, Start: head, Cuts: cutSet(head),
+			PhiInputs: map[string]Val{"res": VOpq{"RES"}, "acc": boolConst(false)},
+			Summaries: map[string]Summary{
+				"*.top": topS, "*.Top": topS, "*.push": pushS, "*.Push": pushS, "*.popN": popS, "*.PopN": popS,
+				"invoke:Scan": scanS, "*.Error": errorS, "*.newError": newErrS, "dyn": reduceS,
+				"*.Reset":       func(r *Run, cc *ssa.CallCommon, args []Val) (Val, error) { return VTuple{}, nil },
+				"invoke:String": pureSummary("String"),
+				"*.TokenString": pureSummary("TokenString"),
+				"fmt.Printf": func(r *Run, cc *ssa.CallCommon, args []Val) (Val, error) {
+					return VTuple{VSym{Name: "n"}, VConst{}}, nil
+				},
+				"*.String": pureSummary("String"),
+			},
+			Lazy: func(o *Obj, path string, t types.Type) Val {
+				if o.Name == "actionTab" && strings.Contains(path, ".actions[") && strings.HasSuffix(path, "]") {
+					return rowAction()
+				}
+				return nil
+			},
+			AtStart: func(r *Run, fr *frame) {
+				tops, scans, lookups = 0, 0, 0
+				r.ClearCell(recvName, ".nextToken")
+				r.ClearCell(recvName, ".pos")
+			},
+			LookupVal: func(r *Run, m, k Val, t types.Type) (Val, Val) {
+				if strings.HasSuffix(render(m), ".Actions") {
+					a := rowAction()
+					iv := a.(VIface)
+					return a, boolConst(iv.Dyn != nil)
+				}
+				return nil, nil
+			},
+		}
+		out := InterpretSafe(reg, &MapWorld{})
+		n++
+		name := fmt.Sprintf("%s Parse loop: %s", short, w.name)
+		if out.Term == "undecided" {
+			c.Undecided(rule, name, out.Undecided, pos)
+			continue
+		}
+		evs := out.Events
+		// expected
+		var want []string
+		wantTerm := "cut:" + head.Comment
+		wantNext := map[string]string{"acc": "false", "res": "RES"}
+		wantRes := ""
+		tok := "&*" + recvName + ".nextToken"
+		topN := 1
+		act := w.first
+		sym := "a1"
+		if w.first == "nil" {
+			want = append(want, "Error(nil)")
+			if !w.recovered {
+				if frontend {
+					want = append(want, "store "+recvName+".nextToken = &*errAttrib.ErrorToken")
+					for _, f := range []string{"Column", "Line", "Offset"} {
+						want = append(want, fmt.Sprintf("store %s.pos.%s = errAttrib.ErrorPos.%s", recvName, f, f))
+					}
+				} else {
+					want = append(want, "store "+recvName+".nextToken = &*errAttrib.ErrorToken")
+				}
+				want = append(want, "newError(nil)")
+				wantTerm = "return"
+				wantRes = "nil, error(theError)"
+				act = ""
+			} else {
+				topN = 2
+				act = w.second
+				sym = "a2"
+				tok = "&tokAfterError"
+				if w.second == "nil" {
+					wantTerm = "panic"
+					act = ""
+				}
+			}
+		}
+		prodTab, gotoTab := "productionsTable", "gotoTab"
+		if frontend {
+			prodTab, gotoTab = recvName+".prodTab", recvName+".gotoTab"
+		}
+		switch act {
+		case "accept":
+			want = append(want, "popN(1)")
+			wantNext["acc"] = "true"
+			wantNext["res"] = "popped[0]"
+		case "shift":
+			want = append(want, fmt.Sprintf("push(%s,*token.Token(%s))", sym, tok))
+			want = append(want, "Scan")
+			if frontend {
+				want = append(want, "store "+recvName+".nextToken = &tok1", "store "+recvName+".pos = pos1")
+			} else {
+				want = append(want, "store "+recvName+".nextToken = &tok1")
+			}
+		case "reduce":
+			if frontend {
+				want = append(want, fmt.Sprintf("popN(%s[%s].NumSymbols)", prodTab, sym), fmt.Sprintf("ReduceFunc[%s[%s].ReduceFunc](popped)", prodTab, sym))
+			} else {
+				want = append(want, fmt.Sprintf("popN(%s[%s].NumSymbols)", prodTab, sym), fmt.Sprintf("ReduceFunc[%s[%s].ReduceFunc](popped,%s.Context)", prodTab, sym, recvName))
+			}
+			if w.errNil {
+				if frontend {
+					want = append(want, fmt.Sprintf("push(%s[TOP@%d][%s[%s].Head],attrib)", gotoTab, topN, prodTab, sym))
+				} else {
+					want = append(want, fmt.Sprintf("push(gotoTab[TOP@%d][%s[%s].NTType],attrib)", topN, prodTab, sym))
+				}
+			} else {
+				want = append(want, "newError(error(actionErr))")
+				wantTerm = "return"
+				wantRes = "nil, error(theError)"
+			}
+		}
+		got := evs
+		ok := out.Term == wantTerm
+		gotS, wantS := strings.Join(got, "; "), strings.Join(want, "; ")
+		ok = ok && gotS == wantS
+		if wantTerm == "return" {
+			ok = ok && strings.Join(out.Results, ", ") == wantRes
+		}
+		if strings.HasPrefix(wantTerm, "cut:") {
+			for k, v := range wantNext {
+				if out.NextPhi[k] != v {
+					ok = false
+				}
+			}
+		}
+		c.Ob(rule, name, ok, fmt.Sprintf("term=%s results=%v next=%v events=[%s]; required term=%s results=[%s] next=%v events=[%s]", out.Term, out.Results, out.NextPhi, gotS, wantTerm, wantRes, wantNext, wantS), pos)
+		if n <= 3 {
+			c.Sample(map[string]any{"rule": rule, "parser": short, "world": w.name, "events": got, "term": out.Term})
+		}
+	}
+	// loop exit: acc = true returns (res, nil)
+	reg := &Region{Fn: fn, Start: head, Cuts: cutSet(head), PhiInputs: map[string]Val{"res": VOpq{"RES"}, "acc": boolConst(true)},
+		Summaries: map[string]Summary{"*.Reset": func(r *Run, cc *ssa.CallCommon, args []Val) (Val, error) { return VTuple{}, nil },
+			"invoke:Scan": func(r *Run, cc *ssa.CallCommon, args []Val) (Val, error) {
+				if frontend {
+					return VTuple{VOpq{"tok0"}, VOpq{"pos0"}}, nil
+				}
+				return VOpq{"tok0"}, nil
+			}}}
+	out := InterpretSafe(reg, &MapWorld{})
+	c.Ob(rule, short+" Parse loop exit", out.Term == "return" && strings.Join(out.Results, ", ") == "RES, nil" && len(out.Events) == 0,
+		fmt.Sprintf("term=%s results=%v events=%v %s; required: return (res, nil) with no further effect", out.Term, out.Results, out.Events, out.Undecided), pos)
+	c.Note("%s: %s: %d worlds of the Parse loop body", rule, short, n+1)
+}
+
+// driverEventsMatch compares event lists where the expected side may end an
+// element with "... " to mean "any suffix" (attribute wrappers of the front end).
+func driverEventsMatch(got, want []string) bool {
+	if len(got) != len(want) {
+		return false
+	}
+	for i := range got {
+		w := want[i]
+		if strings.HasSuffix(w, "... ") {
+			if !strings.HasPrefix(got[i], strings.TrimSuffix(w, "... ")) {
+				return false
+			}
+			continue
+		}
+		if got[i] != w {
+			return false
+		}
+	}
+	return true
 }
